@@ -95,6 +95,124 @@ def random_scripts(rng, n, public=False, sizes=False):
     return res
 
 
+def e2e_scripts(ctx, rng):
+    """end to end (a real filer): seeded schedules of namespace changes (create / update - also one that keeps
+    the size - / delete / rename), forced flushes of the filer's metadata log, and three subscribers (two
+    SubscribeMetadata, one SubscribeLocalMetadata) that start before everything, exactly at a change, or
+    one nanosecond after one - in memory or in the flushed past. Inputs only."""
+    def ch(k, a, b="", same=False):
+        return {"ev": "ch", "k": k, "a": a, "b": b, "same": same}
+
+    def start(r, at, d=0, zero=False):
+        return {"ev": "start", "r": r, "kind": "loc" if r == 3 else "agg", "at": at, "d": d, "zero": zero}
+
+    res = []
+    # directed: 3 changes, flush, 2 changes, then subscribers at every kind of start point, 1 change, drain
+    points = [(0, 0, False), (0, 0, True), (1, 0, False), (1, 1, False), (2, 0, False), (3, 0, False), (3, 1, False),
+              (4, 0, False), (5, 0, False), (5, 1, False)]
+    combos = []
+    for i in range(0, len(points)):
+        combos.append([points[i], points[(i + 3) % len(points)], points[(i + 7) % len(points)]])
+    for i, tri in enumerate(combos if ctx.thorough else combos[ctx.seed % 2::2]):
+        ops = [ch("create", "f1"), ch("create", "f2"), ch("update", "f1", same=(i % 2 == 0)), {"ev": "tflush"},
+               ch("rename", "f2", "f3") if i % 3 == 0 else ch("create", "f3"), ch("delete", "f1")]
+        order = [1, 2, 3] if i % 2 == 0 else [3, 1, 2]
+        for r, (at, d, zero) in zip(order, tri):
+            ops.append(start(r, at, d, zero))
+        if i % 2 == 1:
+            ops.append({"ev": "tflush"})
+        ops += [ch("create", "f4"), {"ev": "sync"}, ch("update", "f4"), {"ev": "drain"}]
+        res.append(ops)
+    # random
+    for _ in range(150 if ctx.thorough else 24):
+        names, free, nlog = [], ["f%d" % k for k in range(1, 30)], 0
+        ops, started, flushed_at = [], [], None
+        nops = rng.randint(6, 14)
+        startpos = {r: rng.randint(0, nops) for r in (1, 2, 3)}
+        flushpos = set(rng.sample(range(1, nops + 1), rng.choice([1, 1, 2, 3])))
+        for i in range(nops + 1):
+            for r in (1, 2, 3):
+                if startpos[r] == i:
+                    x = rng.random()
+                    if nlog == 0 or x < 0.2:
+                        ops.append(start(r, 0, 0, rng.random() < 0.4))
+                    else:
+                        # half of the starts that can be in the flushed past are
+                        hi = flushed_at if (flushed_at and rng.random() < 0.6) else nlog
+                        ops.append(start(r, rng.randint(1, hi), rng.choice([0, 0, 1])))
+            if i == nops:
+                break
+            if i in flushpos and nlog > 0:
+                ops.append({"ev": "tflush"})
+                flushed_at = nlog
+            x = rng.random()
+            if not names or x < 0.4:
+                n = free.pop(0)
+                names.append(n)
+                ops.append(ch("create", n))
+                nlog += 1
+            elif x < 0.65:
+                ops.append(ch("update", rng.choice(names), same=rng.random() < 0.5))
+                nlog += 1
+            elif x < 0.8:
+                n = names.pop(rng.randrange(len(names)))
+                ops.append(ch("delete", n))
+                nlog += 1
+            else:
+                a = names.pop(rng.randrange(len(names)))
+                b = free.pop(0)
+                names.append(b)
+                ops.append(ch("rename", a, b))
+                nlog += 2
+            if rng.random() < 0.25:
+                ops.append({"ev": "sync"} if rng.random() < 0.5 else {"ev": "rd", "r": rng.randint(1, 3)})
+        ops.append({"ev": "drain"})
+        res.append(ops)
+    return [({"mode": "e2e"}, ops) for ops in res]
+
+
+def e2e_mutate(evs):
+    """binding self-test: one delivery lost (not a repeated one)"""
+    for i, e in enumerate(evs):
+        if e["ev"] == "rd" and len(e["got"]) >= 1 and any(x["ev"] == "end" and x["r"] == e["r"] for x in evs):
+            ids = [g[0] for x in evs if x["ev"] == "rd" and x["r"] == e["r"] for g in x["got"]]
+            if len(set(ids)) != len(ids):
+                continue
+            m = [dict(x) for x in evs]
+            m[i]["got"] = e["got"][1:]
+            return m
+    return None
+
+
+def e2e_nontrivial(e):
+    return sum(1 for x in e if '"ev":"rd"' in x and '"got":[]' not in x) >= 2
+
+
+def e2e(ctx, consts, nontrivial, mutate):
+    """5. end to end: Filer.NotifyUpdateEvent / logMetaEvent / logFlushFunc / ReadPersistedLogBuffer and the two
+    subscription handlers of the real filer server, judged by the same layer-A judge"""
+    binp = ctx.build("c22e")
+    if ctx.replay:
+        tr_ = ctx.drive(binp, ["--script", os.path.abspath(ctx.replay)], name="e2e", timeout=900)
+    else:
+        # a fresh filer every 50 executions: a driver process stays well below the minute after which the log
+        # buffers' own timers fire (an execution in which one does is not recorded)
+        scripts = e2e_scripts(ctx, random.Random(ctx.seed * 7919 + 22))
+        tr_ = os.path.join(ctx.out, "e2e.ndjson")
+        parts = []
+        for k in range(0, len(scripts), 50):
+            script = os.path.join(ctx.out, "script_e2e%d.ndjson" % (k // 50))
+            write_script(script, scripts[k:k + 50])
+            parts.append(ctx.drive(binp, ["--script", script], name="e2e_%d" % (k // 50), timeout=900))
+        with open(tr_, "w") as f:
+            for q in parts:
+                f.write(open(q).read())
+        ctx.notes["e2e_executions"] = {"scheduled": len(scripts),
+                                       "recorded": sum(1 for l in open(tr_) if '"ev":"reset"' in l[:60])}
+    ctx.judge("SubscribeTrace", tr_, "trace_base.cfg", consts, nontrivial=nontrivial, mutate=None if ctx.replay else mutate,
+              label="e")
+
+
 def gen_scripts(ctx):
     T = ctx.thorough
     rng = random.Random(ctx.seed)
@@ -142,6 +260,9 @@ def run(ctx):
     T = ctx.thorough
     dev = bool(os.environ.get("C22_DEV"))
     kfb = set(ctx.kf_open.keys()) & {LAG}
+    if os.environ.get("C22_ONLY") == "e2e":        # development / mutation testing of the end-to-end part alone
+        e2e(ctx, {"Readers": READERS, "MaxBump": 2}, e2e_nontrivial, e2e_mutate)
+        return
     # 1. layer A alone: the statement's wording (once, in order, nothing older, no gap) follows
     #    from the prefix formulation that the judge uses
     a = ctx.instance("MC_Subscribe", "SubscribeMC", "Subscribe_mc.cfg",
@@ -177,6 +298,9 @@ def run(ctx):
     def nontrivial(e):
         return sum(1 for x in e if '"ev":"rd"' in x and '"got":[]' not in x) >= 2
 
+    if ctx.replay and '"mode":"e2e"' in open(ctx.replay).readline().replace(" ", ""):
+        e2e(ctx, consts, nontrivial, mutate)
+        return
     if ctx.replay:
         trace = ctx.drive(binp, ["--script", os.path.abspath(ctx.replay)])
         ctx.judge("SubscribeTrace", trace, "trace_base.cfg", consts, nontrivial=nontrivial)
@@ -195,13 +319,18 @@ def run(ctx):
     else:
         st = ctx.drive(binp, ["--mode", "storm", "--n", 40], name="storm")
     ctx.judge("SubscribeTrace", st, "trace_base.cfg", consts, nontrivial=nontrivial, label="s")
+    e2e(ctx, consts, nontrivial, mutate)
     ctx.rule = ("executions = (1) schedules generated by TLC from the implementation-shaped model (every schedule on "
                 "which the model of the unfixed SealBuffer / of a lagging flusher breaks the property, and one shortest "
                 "schedule per shape of (buffer, sealed slots, flusher, reader position) x incoming step), replayed "
                 "step by step on the real LogBuffer (gated flushFn, gated subscriber callbacks); (2) seeded random "
                 "schedules incl. variable and oversize payloads; (3) the same through NewLogBuffer itself; (4) "
                 "free-running goroutine storms (thorough: race detector). Every execution ends with Shutdown, a "
-                "late subscriber from 0 and all subscribers drained. non-trivial = at least 2 non-empty deliveries; "
+                "late subscriber from 0 and all subscribers drained; (5) end to end on a real filer (quick ~30, thorough "
+                "~160 seeded schedules): create / update / delete / rename through gRPC, forced flushes of the filer's "
+                "metadata log into segment files, two SubscribeMetadata and one SubscribeLocalMetadata client starting "
+                "before everything / exactly at a change / 1 ns after one, in memory or in the flushed past, drained on a "
+                "marker change. non-trivial = at least 2 non-empty deliveries; "
                 "distinct by hash of the recorded execution")
     ctx.exhaustive = False
     ctx.assumptions += [
@@ -210,6 +339,9 @@ def run(ctx):
         "one appender per execution (the order of AddToBuffer calls is the order of the log)",
         "a bumped timestamp may be anything up to 2 ns later than the previous one",
         "the race detector only sees the interleavings of the thorough tier's storm (300 executions)",
+        "end to end: one filer, one directory per execution as path prefix, entries without chunks; an execution "
+        "during which a log buffer's own once-a-minute timer fired is not recorded; the log is what the filer put "
+        "into its buffer (read back after every operation)",
     ]
 
 
